@@ -138,8 +138,14 @@ func (p *Prog) allocFeedsExternal(al *ssa.Alloc) bool {
 	return ok
 }
 
+var universeCache = map[*Prog]*Universe{}
+
 func (p *Prog) BuildUniverse() *Universe {
+	if u, ok := universeCache[p]; ok {
+		return u
+	}
 	u := &Universe{ByKind: map[string]map[string][]Producer{}}
+	universeCache[p] = u
 	for _, fn := range p.ModuleFuncs() {
 		// String() methods of ast nodes and tokens format for diagnostics only
 		instrsOf(fn, func(in ssa.Instruction) {
